@@ -1,3 +1,6 @@
+import re
+
+import vlib
 from vlib import Prop
 
 
@@ -136,7 +139,10 @@ class C20(Prop):
                   "blocked_or_exact_partial (exact original fields iff decoder has >= Required Insert Count insertions, MissingRefs otherwise; "
                   "RIC = RFC's; representations denote the originals in the oracle table) for histories without capacity change and without "
                   "stream cancellation, with decide-witnesses that it fails with either (D-20c, D-20d); prefix_roundtrip and prefix_matches_rfc "
-                  "(HeaderPrefix::get . new = id in the RFC window; agreement with the RFC 9204 4.5.1.1 pseudo-code)")
+                  "(HeaderPrefix::get . new = id in the RFC window; agreement with the RFC 9204 4.5.1.1 pseudo-code); ack_delivery_total "
+                  "(in plain histories Encoder::on_decoder_recv accepts whatever the decoder wrote, in every batching: no UnknownStreamId, "
+                  "no InvalidTrackingCount, no panic site) and plain_history_total (a history without capacity change and cancellation "
+                  "never ends in an error: the hypothesis `run s0 evs = some s` of the other theorems excludes nothing there)")
     level_note = ("trusted: Lean kernel + 3 standard axioms; instruction-level model (byte codecs of stream.rs/block.rs are exercised by the "
                   "correspondence run through the real bytes, not modelled: C15/C11's subject); model tied to the code by differential runs "
                   "of whole histories (real Encoder/Decoder driven through the cfg(hyperium_h3_verif) hook, every emitted instruction and "
@@ -150,7 +156,11 @@ class C20(Prop):
             "increments; capacities {0,31,33..36,40,68..70,100,102,136,200,340,1000,2210,4096}; blocked limits {0,1,2,100}; stream ids "
             "reused for header+trailer; schedules sync / block-before-instructions / no acks / nothing delivered until the end / one "
             "instruction at a time / random / cancel storms, all followed by a drain; every 10th history with capacity changes, every "
-            "10th with cancellations; corpus of the four defects first. non-trivial = at least one section decoded successfully (B:ok)")
+            "10th with cancellations; corpus of the four defects first. non-trivial = at least one section decoded successfully (B:ok). "
+            "Known findings are applied per OP: the model puts `#D-20c` / `#D-20d` on the status token of the deliverBlock whose result the "
+            "defect makes wrong (section encoded under another capacity than the decoder's; encoder evicted unreceived entries and the "
+            "section's Required Insert Count is beyond the reconstruction window; later deliverBlocks of a stream whose queue a tagged op "
+            "left out of step with the oracle's) and a mismatch is waived only if every mismatching op carries such a tag")
     trusted = ["harness-side parser of the encoder stream / header blocks into instruction texts (uses the repository's own prefix_int/"
                "prefix_string decoders, C15)",
                "static table contents (C11's subject) shared by model and oracle; only find/find_name soundness is proved here"]
@@ -185,13 +195,69 @@ class C20(Prop):
             L.append(h.line())
         return L
 
+    # ------------------------------------------------------------------ known findings, per op
+    TAG = re.compile(r"#D-[0-9a-z]+")
+    STATUS = re.compile(r"^[EXBACK]:[a-z]+")
+
+    def project(self, line, impl):
+        """The harness evaluates the two defect predicates on the REAL state and prints them as `#D-…`; which op a
+        recorded defect makes wrong is the model's statement (tag on the model's status token), so here they become
+        plain state marks (`~20c`, `~20d`: compared with the model's) and are taken off the status tokens."""
+        out = []
+        for t in impl.split():
+            if t.startswith("#D-"):
+                out.append(t.replace("#D-", "~"))
+            else:
+                out.append(self.TAG.sub("", t))
+        return " ".join(out)
+
+    def mismatching_ops(self, impl, model, spec):
+        """[(index of the op's status token, model status token)] for every op at which the implementation's answer
+        does not match the specification (positions aligned token by token; a trailing `**` ends the comparison)"""
+        it, mt, st = impl.split(), model.split(), spec.split()
+        open_end = bool(st) and st[-1] == "**"
+        if open_end:
+            st = st[:-1]
+        bad = set()
+        for i in range(max(len(st), 0 if open_end else len(it))):
+            a = st[i] if i < len(st) else None
+            b = it[i] if i < len(it) else None
+            if a is None and open_end:
+                break
+            if a is None or b is None or not vlib._tok_match(a, b):
+                j = min(i, len(mt) - 1)
+                while j > 0 and not (self.STATUS.match(mt[j]) or mt[j] == "end"):
+                    j -= 1
+                bad.add(j)
+        return [(j, mt[j] if 0 <= j < len(mt) else "") for j in sorted(bad)]
+
+    def finding_applies(self, line, impl, model, spec, finding):
+        """Suppression per OP: the finding `site:<tag>` explains this line only if EVERY op whose answer mismatches the
+        specification carries, on the model's status token, the tag of an open finding of C20, and `<tag>` is one of
+        the tags that are needed.  A mismatch at an op without such a tag is not explained: the case is a failing input."""
+        key = finding.get("key", "")
+        if not key.startswith("site:"):
+            return True
+        listed = {f["key"][5:] for f in vlib.load_findings().get("findings", [])
+                  if f.get("property") == self.id and f.get("status", "open") == "open" and f.get("key", "").startswith("site:")}
+        ops = self.mismatching_ops(impl, model, spec)
+        if not ops:
+            return False
+        used = set()
+        for _, tok in ops:
+            tags = set(re.findall(r"#(D-[0-9a-z]+)", tok)) & listed
+            if not tags:
+                return False
+            used |= tags
+        return key[5:] in used
+
     def klass(self, line, impl):
         toks = impl.split()
         kinds = set()
         for t in toks:
             if t[:2] in ("E:", "X:", "B:", "A:", "C:", "K:"):
                 kinds.add(t)
-            elif t.startswith("#D-"):
+            elif t.startswith("~2"):
                 kinds.add(t)
             elif t.startswith("n=") and ";inc=" in t:
                 inc = t.split(";inc=")[1].split(";")[0]
